@@ -229,6 +229,28 @@ fn answer(a: &[&str]) -> String {
             let seq: dicom_core::value::PixelFragmentSequence<Vec<u8>> = frames.into();
             seq.offset_table().iter().map(|x| x.to_string()).collect::<Vec<_>>().join(" ")
         }
+        // time_range <variant 0-3> h m s fraction precision -> "<earliest us> <latest us>" (microseconds after midnight, leap second above 86_399_999_999) | ERR
+        "time_range" => {
+            use dicom_core::value::{AsRange, DicomTime};
+            use dicom_core::chrono::Timelike;
+            let n: Vec<u32> = a[1..].iter().map(|x| x.parse().unwrap()).collect();
+            let t = match n[0] {
+                0 => DicomTime::from_h(n[1] as u8),
+                1 => DicomTime::from_hm(n[1] as u8, n[2] as u8),
+                2 => DicomTime::from_hms(n[1] as u8, n[2] as u8, n[3] as u8),
+                _ => match n[5] {
+                    3 => DicomTime::from_hms_milli(n[1] as u8, n[2] as u8, n[3] as u8, n[4]),
+                    6 => DicomTime::from_hms_micro(n[1] as u8, n[2] as u8, n[3] as u8, n[4]),
+                    _ => return "SKIP".into(),
+                },
+            };
+            let t = match t { Ok(t) => t, Err(_) => return "ERR_CONSTRUCT".into() };
+            let us = |x: dicom_core::chrono::NaiveTime| (x.num_seconds_from_midnight() as u64) * 1_000_000 + (x.nanosecond() as u64) / 1000;
+            match (t.earliest(), t.latest()) {
+                (Ok(e), Ok(l)) => format!("{} {}", us(e), us(l)),
+                _ => "ERR".into(),
+            }
+        }
         // ts_dump -> one line per registered transfer syntax
         "ts_dump" => {
             use dicom_encoding::transfer_syntax::TransferSyntaxIndex;
